@@ -303,6 +303,8 @@ theorem parseElispEscape_t {f f' : Nat} {acc : List UInt8} :
   unfold parseElispEscape
   tr [nextOrEof_t, decodeElispHexEscape_t, decodeElispUniEscape_t, decodeElispOctalEscape_t,
     elispCharEscape_t, elispUniCharEscape_t]
+  -- the escaped blank: the byte peeked by a successful full run is not a continuation byte
+  · bd []
   -- `\N{U+<surrogate>`: the full run, which sees one more byte, fails as well
   intro b
   rename_i hsur
